@@ -23,20 +23,26 @@ RULE = ("rational-atom circuits of 1-9 commands over the primitives of gaussian_
         "such as {8,1}, {0,9,17}, 9-12 modes of a register of up to 20, 35 % daggered gates, ordered (also "
         "descending) mode pairs, 1-4-mode Interferometer / GaussianTransform / PassiveChannel blocks; float circuits "
         "additionally over the decomposable operations (Pgate, CXgate, CZgate, Xgate, Zgate, Fouriergate); hybrid "
-        "circuits with Kgate/Vgate/CKgate/MeasureFock/MeasureHomodyne for gaussian_merge.  Non-trivial = at least two "
+        "circuits with Kgate/Vgate/CKgate/MeasureFock/MeasureHomodyne for gaussian_merge, also on non-contiguous index "
+        "sets, with Del/New holes, GraphEmbed/BipartiteGraphEmbed/Gaussian; equal operations are ONE shared Operation "
+        "instance within and across programs; programs are compiled twice / interleaved / by two compilers in "
+        "sequence and snapshotted before and after.  Non-trivial = at least two "
         "commands sharing a mode and (a used-mode list that is not 0..k-1 or a daggered command); distinct by spec.")
 ASSUMPTIONS = [
-    "the 2x2/4x4/kxk blocks (thewalrus.symplectic.rotation/squeezing/beam_splitter/two_mode_squeezing/interferometer/"
-    "expand, np.linalg.inv, the MZ matrices) enter the model as data; they are recomputed exactly from the documented "
-    "formulas at rational circle/hyperbola points and the float64 result of the real compiler is compared at 1e-9",
+    "the blocks of Dgate/Rgate/Sgate/BSgate/S2gate/MZgate/sMZgate and of their inverses are computed by the model from "
+    "the parameter atoms (rational circle/hyperbola points) and compared at 1e-9 with the float64 result of the real "
+    "compiler (thewalrus.symplectic.*, np.linalg.inv, the MZ matrices); Interferometer/GaussianTransform/PassiveChannel "
+    "matrices are user data and travel as data; thewalrus.symplectic.expand is modelled by embedRows/xpRows and compared",
     "np.allclose thresholds of the emission (identity matrix / zero displacement) are compared as thresholds",
     "gaussian_merge: commands without a common wire commute; the meaning of an emitted block is validated numerically "
     "against the ordered product of its members for every merge step",
     "Fock-space comparison uses the truncation-escalation rule of DESIGN 1.6",
 ]
 TRUSTED = ["modelled: GaussianUnitary.compile, _apply_symp_one/two_mode_gate, Passive.compile, _apply_one/two_mode_gate "
-           "(used_modes, dict_indices, ord_reg, emission); validated per instance by a proved checker: gaussian_merge",
-           "NetworkX order inside gaussian_merge is not modelled (certificate per step instead)"]
+           "(used_modes, dict_indices, ord_reg, emission, documented gate blocks), the graph surgery of "
+           "merge_a_gaussian_op (edge set compared on every step); validated per instance by a proved checker: the "
+           "result of every gaussian_merge step",
+           "the selection of the commands gaussian_merge merges (NetworkX iteration order) is not modelled"]
 
 TOL = 1e-9
 
@@ -442,13 +448,19 @@ def rand_embed_op(rng, ms):
     u = rng.random()
     if u < 0.45 and len(ms) >= 2:
         k = rng.randint(2, min(3, len(ms)))
-        A = np.array([[round(rng.uniform(-1, 1), 2) for _ in range(k)] for _ in range(k)])
-        A = ((A + A.T) / 2).round(3)
+        while True:     # graph_embed rejects (ValueError) matrices with tiny singular values: not a compile matter
+            A = np.array([[round(rng.uniform(-1, 1), 2) for _ in range(k)] for _ in range(k)])
+            A = ((A + A.T) / 2).round(3)
+            if np.linalg.svd(A, compute_uv=False).min() > 0.05:
+                break
         return dict(cls="GraphEmbed", regs=rng.sample(ms, k), pars=[dict(rmat=A.tolist())],
                     kw=dict(mean_photon_per_mode=rng.choice([0.2, 0.5, 1.0])), dagger=False)
     if u < 0.85 and len(ms) >= 2:
         k = 1 if len(ms) < 4 else rng.randint(1, 2)
-        B = [[round(rng.uniform(-1, 1), 2) for _ in range(k)] for _ in range(k)]
+        while True:
+            B = [[round(rng.uniform(-1, 1), 2) for _ in range(k)] for _ in range(k)]
+            if np.linalg.svd(np.array(B), compute_uv=False).min() > 0.05:
+                break
         return dict(cls="BipartiteGraphEmbed", regs=rng.sample(ms, 2 * k), pars=[dict(rmat=B)],
                     kw=dict(mean_photon_per_mode=rng.choice([0.2, 0.5]), edges=True), dagger=False)
     k = 1
